@@ -69,14 +69,14 @@ func verifSameSet(a, b []string) bool {
 	return true
 }
 
-// H_c16_listener_steps: 1..3 add/remove operations over the names {a, b} and the kinds SMB and
+// H_c16_listener_steps: 1..3 (thorough 1..5) add/remove operations over the names {a, b} and the kinds SMB and
 // External (duplicates and unknown names included): listener names stay unique, and the
 // running set, the persisted set and the set advertised to operators are the same set; a
 // removed External listener's endpoint is gone.
 func H_c16_listener_steps() {
 	t := verifNewTeamserver(true)
 	names := []string{"a", "b"}
-	steps := 1 + nondet_choice("steps", 3)
+	steps := 1 + nondet_choice("steps", verif_bound("listener-steps-max", 3, 5))
 	for s := 0; s < steps; s++ {
 		name := names[nondet_choice("name", 2)]
 		switch nondet_choice("op", 3) {
